@@ -4,8 +4,10 @@
 //             after every Execute the result is compared bit for bit with a freshly constructed clipper given the
 //             paths added since the last Clear and the current options (F records on mismatch); after every op the
 //             private scratch members are inspected (F record if one is not empty) and the whole persistent state
-//             (sorted flag, has_open_paths_, succeeded_, order of minima_list_) is compared with the Lean model of
-//             ClipperBase (`HISTREPLAY`, M records).
+//             (sorted flag, has_open_paths_, succeeded_, minima_list_: creation number, vertex point, polytype, is_open
+//             of every element in its current order) is compared with the Lean model of ClipperBase (`HISTREPLAY`,
+//             M records).  The add ops of a HISTREPLAY request carry the integer paths given to AddPaths_; the model
+//             computes the local minima itself (Model/AddPathsRings.lean).
 //  OFFCHECK   ClipperOffset: repeated Execute, Clear + new paths, permutations of paths within a group and of
 //             groups (far-apart paths, all join/end types) against separate fresh objects; final frame state
 //             (delta_, group_delta_, join_type_, end_type_) against the Lean model of DoGroupOffset (`OFFFRAME`).
@@ -86,6 +88,7 @@ enum Op { ADD_A, ADD_B, ADD_C, ADD_L, EX_INT, EX_UNI_TREE, EX_DIFF_OPEN, CLEAR, 
 static const char* OPNAME[] = {"AddSubject(A)", "AddSubject(B)", "AddClip(C)", "AddOpenSubject(L)", "Execute(Intersection,NonZero,paths)",
   "Execute(Union,EvenOdd,tree+open)", "Execute(Difference,NonZero,paths+open)", "Clear", "TogglePreserveCollinear", "ToggleReverseSolution", "Execute(NoClip,EvenOdd,paths)"};
 static bool is_add(int op) { return op <= ADD_L; }
+static Paths64 set_of(int op) { return op == ADD_A ? setA() : op == ADD_B ? setB() : op == ADD_C ? setC() : setL(); }
 static bool is_exec(int op) { return (op >= EX_INT && op <= EX_DIFF_OPEN) || op == EX_NOCLIP; }
 
 static std::string ser_tree(const PolyPath64& pp) {
@@ -112,6 +115,7 @@ struct Var64 {
       default: c.AddOpenSubject(setL()); break;
     }
   }
+  static Paths64 int_paths(Cl&, int op) { return set_of(op); }
   static std::string exec(Cl& c, int op) {
     bool ok;
     std::string s;
@@ -133,6 +137,10 @@ struct VarD {
       case ADD_C: c.AddClip(toD(setC())); break;
       default: c.AddOpenSubject(toD(setL())); break;
     }
+  }
+  static Paths64 int_paths(Cl& c, int op) {   // ClipperD::AddSubject: AddPaths(ScalePaths<int64_t, double>(paths, scale_, error_code_), …)
+    int ec = 0;
+    return ScalePaths<int64_t, double>(toD(set_of(op)), c.scale_, ec);
   }
   static std::string exec(Cl& c, int op) {
     bool ok;
@@ -162,6 +170,7 @@ struct VarR {
   static const char* name() { return "c64reuse"; }
   static Cl* make() { return new Cl(); }
   static void add(Cl& c, int op) { c.AddReuseableData(*g_rdc[op]); }
+  static Paths64 int_paths(Cl&, int op) { return set_of(op); }   // what the container was filled from
   static std::string exec(Cl& c, int op) { return Var64::exec(c, op); }
 };
 
@@ -194,6 +203,7 @@ static std::string state_vec(Cl& c, MinId& ids, bool iter_valid) {
     auto it = ids.id.find(lm.get());
     s += ' ';
     s += it == ids.id.end() ? std::string("?") : std::to_string(it->second);
+    s += "@" + S(lm->vertex->pt.x) + "," + S(lm->vertex->pt.y) + "/" + std::to_string((int)lm->polytype) + (lm->is_open ? "1" : "0");
   }
   return s;
 }
@@ -250,18 +260,14 @@ static void run_history(const std::vector<int>& h, bool emit_model) {
       size_t n0 = b.minima_list_.size();
       V::add(*c, op);
       adds.push_back(op);
-      iter_valid = false;  // emplace_back may reallocate: the stored iterator is stale until Reset()/Clear()
+      if (b.minima_list_.size() != n0) iter_valid = false;  // emplace_back may reallocate: the stored iterator is stale until Reset()/Clear()
       bool viaContainer = std::is_same<V, VarR>::value;
-      size_t nv = 0;
-      for (auto& p : (op == ADD_A ? setA() : op == ADD_B ? setB() : op == ADD_C ? setC() : setL())) nv += p.size();
-      req += viaContainer ? " R " : (op == ADD_L ? " A 1 " : " A 0 ");
-      if (!viaContainer) req += std::to_string(nv) + " ";
-      req += std::to_string(b.minima_list_.size() - n0);
-      for (size_t k = n0; k < b.minima_list_.size(); ++k) {
-        const LocalMinima* lm = b.minima_list_[k].get();
-        ids.id[lm] = ids.next++;
-        req += " " + S(lm->vertex->pt.y) + " " + S(lm->vertex->pt.x) + " " + std::to_string((int)lm->polytype) + " " + std::to_string((int)lm->is_open);
-      }
+      // The op carries the integer paths that reach AddPaths_ (for ClipperD: scaled exactly as ClipperD::AddSubject does);
+      // the Lean model of AddPaths_ computes the minima.  The real minima are only *numbered* here (creation order), and
+      // the state vector lists number, vertex point, polytype and is_open of every element of minima_list_.
+      req += std::string(viaContainer ? " R " : " A ") + (op == ADD_C ? "1 " : "0 ") + (op == ADD_L ? "1 " : "0 ") + S(V::int_paths(*c, op));
+      for (size_t k = n0; k < b.minima_list_.size(); ++k) ids.id[b.minima_list_[k].get()] = ids.next++;
+      stat(lab + ".minima_created", (long long)(b.minima_list_.size() - n0));
       stat(lab + ".op.add");
     } else if (is_exec(op)) {
       std::string got = V::exec(*c, op);
@@ -443,33 +449,61 @@ static void histcheck(Rng& g) {
   for (int i = 0; i < 4; ++i) delete g_rdc[i];
 }
 
-// histories on random path sets (larger inputs than the fixed ones; Clipper64 only)
+// a path on a tiny grid: repeated points, flat runs, spikes, explicit closing vertex, 0..7 points
+static Path64 grid_path(Rng& g) {
+  Path64 p;
+  int n = (int)g.range(0, 7);
+  for (int i = 0; i < n; ++i) {
+    if (!p.empty() && g.chance(25)) p.push_back(p.back());                       // consecutive duplicate
+    else if (!p.empty() && g.chance(25)) p.emplace_back(g.range(-3, 3), p.back().y);  // horizontal edge
+    else p.emplace_back(g.range(-3, 3), g.range(-3, 3));
+  }
+  if (!p.empty() && g.chance(30)) p.push_back(p.front());                         // closing vertex
+  return p;
+}
+
+// histories on random path sets (larger inputs than the fixed ones, and degenerate ones on a tiny grid; Clipper64 only);
+// every history is also replayed on the Lean model, which computes the minima from the paths (`HISTREPLAY`)
 static void random_path_histories(Rng& g, int count) {
   for (int n = 0; n < count; ++n) {
     std::vector<Paths64> sets(4);
-    for (int s = 0; s < 3; ++s) {
-      int np = (int)g.range(1, 3);
-      for (int i = 0; i < np; ++i)
-        sets[s].push_back(g.coin() ? star_poly(g, (int)g.range(3, 12), 20, 200, g.range(-100, 100), g.range(-100, 100))
-                                   : rand_poly(g, (int)g.range(3, 8), g.chance(30) ? 8 : 200));
+    bool tiny = g.chance(40);
+    if (tiny) {
+      for (int s = 0; s < 4; ++s) { int np = (int)g.range(0, 3); for (int i = 0; i < np; ++i) sets[s].push_back(grid_path(g)); }
+      stat("hist.random_paths.tiny_grid_histories");
+    } else {
+      for (int s = 0; s < 3; ++s) {
+        int np = (int)g.range(1, 3);
+        for (int i = 0; i < np; ++i)
+          sets[s].push_back(g.coin() ? star_poly(g, (int)g.range(3, 12), 20, 200, g.range(-100, 100), g.range(-100, 100))
+                                     : rand_poly(g, (int)g.range(3, 8), g.chance(30) ? 8 : 200));
+      }
+      sets[3].push_back(rand_poly(g, (int)g.range(2, 6), 250));
     }
-    sets[3].push_back(rand_poly(g, (int)g.range(2, 6), 250));
     Clipper64 c;
+    ClipperBase& b = c;
+    MinId ids;
     std::vector<int> adds;
-    bool preserve = true, reverse = false;
+    bool preserve = true, reverse = false, iter_valid = false;
     int len = (int)g.range(4, 14);
-    std::string hs;
+    std::string hs, req = "HISTREPLAY " + std::to_string(len), expect;
     for (int i = 0; i < len; ++i) {
       int op = (int)(g.next() % N_OPS);
       hs += char('a' + op);
       if (is_add(op)) {
+        size_t n0 = b.minima_list_.size();
         if (op == ADD_C) c.AddClip(sets[2]); else if (op == ADD_L) c.AddOpenSubject(sets[3]); else c.AddSubject(sets[op]);
         adds.push_back(op);
-      } else if (op == CLEAR) { c.Clear(); adds.clear(); }
-      else if (op == TOG_PRESERVE) { preserve = !preserve; c.PreserveCollinear(preserve); }
-      else if (op == TOG_REVERSE) { reverse = !reverse; c.ReverseSolution(reverse); }
+        if (b.minima_list_.size() != n0) iter_valid = false;   // no emplace_back, no reallocation: the iterator stays valid
+        req += std::string(" A ") + (op == ADD_C ? "1 " : "0 ") + (op == ADD_L ? "1 " : "0 ") + S(sets[op]);
+        for (size_t k = n0; k < b.minima_list_.size(); ++k) ids.id[b.minima_list_[k].get()] = ids.next++;
+        stat("hist.random_paths.minima_created", (long long)(b.minima_list_.size() - n0));
+      } else if (op == CLEAR) { c.Clear(); adds.clear(); ids = MinId(); iter_valid = true; req += " C"; }
+      else if (op == TOG_PRESERVE) { preserve = !preserve; c.PreserveCollinear(preserve); req += std::string(" P ") + (preserve ? "1" : "0"); }
+      else if (op == TOG_REVERSE) { reverse = !reverse; c.ReverseSolution(reverse); req += std::string(" V ") + (reverse ? "1" : "0"); }
       else {
         std::string got = Var64::exec(c, op);
+        iter_valid = true;
         Clipper64 f;
         f.PreserveCollinear(preserve); f.ReverseSolution(reverse);
         for (int a : adds) { if (a == ADD_C) f.AddClip(sets[2]); else if (a == ADD_L) f.AddOpenSubject(sets[3]); else f.AddSubject(sets[a]); }
@@ -480,12 +514,17 @@ static void random_path_histories(Rng& g, int count) {
           for (auto& s : sets) d += " {" + S(s) + "}";
           fail("hist.random-paths.exec-vs-fresh", d + " ops " + hs);
         }
+        int ct = op == EX_INT ? 1 : op == EX_UNI_TREE ? 2 : op == EX_DIFF_OPEN ? 3 : 0;
+        int fr = (op == EX_INT || op == EX_DIFF_OPEN) ? 1 : 0;
+        req += " E " + std::to_string(ct) + " " + std::to_string(fr) + " " + (op == EX_UNI_TREE ? "1" : "0");
       }
-      ClipperBase& b = c;
       if (b.actives_ || !b.scanline_list_.empty() || !b.intersect_nodes_.empty() || !b.outrec_list_.empty() || !b.horz_seg_list_.empty() || !b.horz_join_list_.empty() || b.sel_)
         fail("hist.random-paths.scratch-not-empty", "ops " + hs);
+      if (i) expect += " ; ";
+      expect += state_vec(c, ids, iter_valid);
     }
     stat("hist.random_paths.histories");
+    emitM("hist.random_paths.model", req, expect);
   }
 }
 
